@@ -335,7 +335,19 @@ func runUC[V any](c ucCase, ue ucElem[V]) (res core.Result) {
 	}
 
 	// value kinds
-	seqArg := col.List[V](n).MakeFromArray(vals)
+	// the sequence handed to the constructors is a List, an Array, or a Set ordered by a reversed collator
+	// (whose order and collator are its own business: the new collection is built from its values)
+	var seqArg col.Sequential[V] = col.List[V](n).MakeFromArray(vals)
+	switch (len(c.Codes) + c.Size) % 3 {
+	case 1:
+		seqArg = col.Array[V](n).MakeFromArray(vals)
+	case 2:
+		rs := col.Set[V](n).MakeWithCollator(reversed)
+		for _, v := range vals {
+			rs.AddValue(v)
+		}
+		seqArg = rs
+	}
 	source := "[" + strings.Join(lits, ", ") + "](" + c.SrcCtx + ")"
 	if len(lits) == 0 {
 		source = "[ ](" + c.SrcCtx + ")"
